@@ -19,6 +19,7 @@ import (
 	"encoding/json"
 	"fmt"
 	"hash"
+	"math/big"
 	"net/http"
 	"net/textproto"
 	"os"
@@ -419,37 +420,57 @@ func vfJWTTokenVerdict(tok, alg string, secret []byte, now int64) (vfVerdict, st
 		return vfReject, "payload not a JSON object"
 	}
 	res := vfAccept
-	num := func(k string) (int64, bool, bool) { // value, present, numeric
+	// Time claims are RFC 7519 NumericDates: JSON numbers that may be fractional or written with an
+	// exponent. They are compared exactly (as rationals) with the clock, which stands at now.0:
+	//   exp: valid while now < exp. exp <= now-1 is expired; now-1 < exp < now is expired by less than
+	//        a second (implementations work in whole seconds and the RFC allows a small leeway): open;
+	//        exp == now: open.
+	//   nbf: valid when nbf <= now. nbf >= now+1 is not yet valid; now < nbf < now+1: open.
+	//   iat in the future: open. Claims that are not JSON numbers (string, null, ...), are zero or
+	//   negative / below 1 (golang-jwt reads 0 whole seconds as "not set") or beyond 2^53: open.
+	nowR := new(big.Rat).SetInt64(now)
+	one := new(big.Rat).SetInt64(1)
+	num := func(k string) (r *big.Rat, present, usable bool) {
 		c, ok := claims[k]
 		if !ok {
-			return 0, false, false
+			return nil, false, false
 		}
 		n, ok := c.(json.Number)
 		if !ok {
-			return 0, true, false
+			return nil, true, false
 		}
-		i, err := n.Int64()
-		return i, true, err == nil
+		r, ok = new(big.Rat).SetString(string(n))
+		// below 1 means zero in whole seconds, which golang-jwt reads as "claim not set"
+		if !ok || r.Cmp(one) < 0 || r.Cmp(new(big.Rat).SetInt64(1<<53)) > 0 {
+			return nil, true, false
+		}
+		return r, true, true
 	}
-	if exp, present, numeric := num("exp"); present {
+	if exp, present, usable := num("exp"); present {
 		switch {
-		case !numeric:
+		case !usable:
 			res = vfEither
-		case now > exp:
+		case exp.Cmp(nowR) > 0:
+			// valid
+		case exp.Cmp(new(big.Rat).Sub(nowR, one)) <= 0:
 			return vfReject, "expired"
-		case now == exp:
-			res = vfEither
+		default:
+			res = vfEither // exp == now, or expired by less than a second
 		}
 	}
-	if nbf, present, numeric := num("nbf"); present {
+	if nbf, present, usable := num("nbf"); present {
 		switch {
-		case !numeric:
+		case !usable:
 			res = vfEither
-		case now < nbf:
+		case nbf.Cmp(nowR) <= 0:
+			// valid
+		case nbf.Cmp(new(big.Rat).Add(nowR, one)) >= 0:
 			return vfReject, "not yet valid"
+		default:
+			res = vfEither // valid in less than a second
 		}
 	}
-	if iat, present, numeric := num("iat"); present && (!numeric || iat > now) {
+	if iat, present, usable := num("iat"); present && (!usable || iat.Cmp(nowR) > 0) {
 		res = vfEither
 	}
 	if vfB64U(sb) != parts[2] || vfB64U(hb) != parts[0] || vfB64U(pb) != parts[1] {
